@@ -261,6 +261,7 @@ func runC08(p *core.Prog, r *core.Result) {
 	r.Decided = []string{
 		"R8.12 the fingerprints are compared in full: diffEnv reports 'unchanged' only on whole-value equality of the recorded and the current environment (shared with C01 R1.13)",
 		"R8.13 values of different kinds stay different in the compared form: (a) no case of the host unpickler returns one of its arguments, or the argument tuple, as it is - a pickled target reference would then decode to the bare label string and compare equal to that string, a builtin to a (name, receiver) tuple; (b) the equality that decides 'unchanged' tells numbers of different kinds apart - starlark.Equal/EqualDepth does not (1 == 1.0), so an edit of 3 into 3.0 leaves the fingerprint equal",
+		"R8.14 two different values a function references are never written as one: the encoder's memo tables are consulted and filled only under the value being encoded itself, an interface value that keeps the object alive (C07's R7.12) - a key derived from the value (the address of a tuple's first element, which a tuple shares with its prefix slices) makes `flags = base[:2]` a back-reference to `base`, so editing the slice bound leaves the fingerprint unchanged",
 		"R8.1 host pickler and unpickler agree: every (module, name) the pickler produces has an unpickler case that checks exactly the arity of the tuple the pickler builds",
 		"R8.2 for every in-module value type with attributes, the names it advertises (AttrNames) are names it answers (Attr): the encoder's has-attrs branch never encodes a nil",
 		"R8.3 a pickler case whose arguments are an open environment (can contain the subject again, since recursion is enabled) needs an in-progress guard, because NEWOBJ results are memoized only after their arguments",
@@ -366,36 +367,34 @@ func runC08(p *core.Prog, r *core.Result) {
 	}
 
 	// ---- R8.6 the pickled form of a subject is a function of that subject alone
-	nElems := 0
-	for _, pc := range allCases {
-		for i, e := range pc.Elems {
-			if e == nil {
-				continue
-			}
-			nElems++
-			shared := ""
-			for v := range core.BackwardSlice(e, core.SliceOpts{Stores: true, ThroughCall: func(c *ssa.Call) bool { return true }}) {
-				switch x := v.(type) {
-				case *ssa.FreeVar:
-					shared = "the captured variable " + x.Name()
-				case *ssa.Global:
-					shared = "the package variable " + x.Name()
-				}
-			}
-			construct := fmt.Sprintf("%s#arg-%s[%d]-of-subject-only", fname(pc.Ret.Parent()), pc.Name, i)
-			if shared == "" {
-				r.OK("R8.6", construct, p.InstrPos(pc.Ret), "computed from the pickled subject alone")
-			} else {
-				r.Bad("R8.6", construct, p.InstrPos(pc.Ret), "argument %d of %s is computed from %s, state shared between different subjects of one encoding: two closures can then be given one argument object, which the encoder writes once and the unpickler - which completes a function's environment by filling the dictionary decoded from its code argument in place - merges, so a change to a value captured by one of them no longer changes the fingerprint", i, pc.Name, shared)
-			}
-		}
-	}
-	r.Floor("R8.6", nElems, 3, "elements of pickled argument tuples")
+	checkPickledFromSubjectOnly(p, r, allCases, "R8.6")
 
 	// ---- R8.8 values with run-time contents are not fingerprinted by content
 	checkRuntimeStateNotPickledByContent(p, r, "R8.8")
 	checkEnvVerdictWholeEquality(p, r, "R8.12")
 	checkKindsDistinguishable(p, r, unpicklers, "R8.13")
+
+	// ---- R8.14 two different values are never written as one (the memo obligations of C07)
+	{
+		sub := core.NewResult("C07")
+		checkMemoIdentity(p, sub)
+		n := 0
+		for _, o := range sub.Obls {
+			if strings.HasPrefix(o.Construct, "rule#") {
+				continue
+			}
+			n++
+			switch o.Status {
+			case core.Discharged:
+				r.OK("R8.14", o.Construct, o.Pos, "%s", o.Detail)
+			case core.Violated:
+				r.Bad("R8.14", o.Construct, o.Pos, "%s", o.Detail)
+			case core.Undecided:
+				r.Unk("R8.14", o.Construct, o.Pos, "%s", o.Detail)
+			}
+		}
+		r.Floor("R8.14", n, 3, "memo obligations of the encoder")
+	}
 
 	// ---- R8.9 the pickler's own state lives for one encoding
 	checkPicklerStateFresh(p, r, picklers)
@@ -1211,6 +1210,36 @@ func checkPicklerStateFresh(p *core.Prog, r *core.Result, picklers []*ssa.Functi
 	if n == 0 {
 		r.OK("R8.9", "dawn#pickler-captures-nothing-mutable", "-", "the %d pickler function(s) capture no map, slice, pointer or channel", len(picklers))
 	}
+}
+
+// checkPickledFromSubjectOnly implements R8.6 (shared with C01 as R1.15).
+func checkPickledFromSubjectOnly(p *core.Prog, r *core.Result, allCases []pickleCase, rule string) {
+	nElems := 0
+	for _, pc := range allCases {
+		for i, e := range pc.Elems {
+			if e == nil {
+				continue
+			}
+			nElems++
+			shared := ""
+			for v := range core.BackwardSlice(e, core.SliceOpts{Stores: true, ThroughCall: func(c *ssa.Call) bool { return true }}) {
+				switch x := v.(type) {
+				case *ssa.FreeVar:
+					shared = "the captured variable " + x.Name()
+				case *ssa.Global:
+					shared = "the package variable " + x.Name()
+				}
+			}
+			construct := fmt.Sprintf("%s#arg-%s[%d]-of-subject-only", fname(pc.Ret.Parent()), pc.Name, i)
+			if shared == "" {
+				r.OK(rule, construct, p.InstrPos(pc.Ret), "computed from the pickled subject alone")
+			} else {
+				r.Bad(rule, construct, p.InstrPos(pc.Ret), "argument %d of %s is computed from %s, state shared between different subjects of one encoding: two closures can then be given one argument object, which the encoder writes once and the unpickler - which completes a function's environment by filling the dictionary decoded from its code argument in place - merges, so a change to a value captured by one of them no longer changes the fingerprint", i, pc.Name, shared)
+			}
+		}
+	}
+	r.Floor(rule, nElems, 3, "elements of pickled argument tuples")
+
 }
 
 // checkKindsDistinguishable implements R8.13.
